@@ -131,6 +131,14 @@ def main():
         corpus.append(("dataset", "ne0", (("seq", "o", (("base", "id", "i", (), ()),
                                                           ("seq", "inner", (("base", "x", "i", (), ()), ("base", "s", "S", (), ())), ())),
                                             ((1, ()), (2, ((10, "ab"), (20, "cde"))), (3, ()), (4, ((30, "z"),)))),)))
+        # ... and Byte arrays whose size is a multiple of 4 (no padding) followed by another variable, top level and in a structure
+        corpus.append(("dataset", "by4", (("base", "b", "B", (4,), (1, 2, 3, 255)), ("base", "t", "i", (), (7,)))))
+        corpus.append(("dataset", "by8", (("struct", "st", (("base", "b", "B", (2, 4), (9, 8, 7, 6, 5, 4, 3, 2)), ("base", "u", "h", (), (-2,)))),
+                                           ("base", "t", "d", (), (1.5,)))))
+        # ... and a sequence with a Byte column next to a String column (the general decoder, not the numeric fast path)
+        corpus.append(("dataset", "bs0", (("seq", "q", (("base", "b", "B", (), ()), ("base", "s", "S", (), ())),
+                                            ((200, "ab"), (7, "xyz"), (0, ""), (255, "abcd"))),)))
+        n += len(corpus)          # the corpus comes on top of the generated datasets
         while done < n and attempts < 20 * n:
             attempts += 1
             desc = corpus.pop(0) if corpus else G.gen_dataset(rng)
